@@ -434,7 +434,6 @@ func leavesKeepingChain(v ssa.Value, chain []*ssa.Call, depth int) []leafVal {
 	return valueLeaves(v, chain, depth)
 }
 
-
 // closureCallSite: function literal lit is handed (as argument of the static call outer) to an in-package helper, which calls
 // it through the corresponding func-typed parameter at inner.
 type closureCallSite struct {
